@@ -168,7 +168,7 @@ CLAIMS = {
         "tan beta, vd) when force-output is off and emits exactly the matching WARNING when it is on, nothing otherwise; check_problems maps a flagged tachyon to EPhysicalProblem and "
         "negative soft masses / massless chargino to EInvalidInput unless force-output; THDM set_basis (mass and gauge basis) likewise for mh>mH, tan beta<=0, |sin(beta-alpha)|>1, "
         "negative masses and tachyons; int_to_cpp_yukawa_type is the identity on 1..6 and throws ESetupError otherwise; the monitored MSSM sectors flag a tachyon exactly when an "
-        "eigenvalue is negative; MSSMNoFV_setup::run returns failure exactly when a problem is flagged and print_error emits a diagnostic for every output format.",
+        "eigenvalue is negative; MSSMNoFV_setup::run returns failure exactly when a problem is flagged and print_error emits a diagnostic for every output format.  THDM input: the program builds the model from the mass basis iff some of (mh, mH, mA, mH+, sin(beta-alpha)) is non-zero and lambda_1..5 are all zero, from the gauge basis iff the converse holds, and refuses every other input (undecidable basis).",
    note=NOTE_COMMON + "'infinite tan(beta)' and 'result is finite' are IEEE notions outside back end B (C11/C18 territory); the THDM spectrum calculation and validate() enter set_basis by contract; "
         "main()'s try/catch is covered through print_error and the setup classes, command-line parsing is not modelled.",
    technique="exception/diagnostic effects by symbolic path exploration of the extracted real methods + z3", design='5 C16'),
